@@ -31,6 +31,11 @@ def H0(field):
     return z3.Const("H0_" + field, z3.ArraySort(INT, INT))
 
 
+def _one_star_less(t):
+    """'PyObject**' -> 'PyObject*': the element type of a vector (exactly one level of indirection less)."""
+    return t[:-1] if t.endswith("*") else t
+
+
 class FSplit(CExec):
     family = "F-SPLIT"
 
@@ -110,7 +115,7 @@ class FSplit(CExec):
             for x in walk(n["inner"][2]):
                 if x.get("kind") == "MemberExpr" and x.get("name") in ("keys", "values"):
                     q = x.get("type", {}).get("desugaredQualType") or x.get("type", {}).get("qualType", "")
-                    elem_t = q.replace("const ", "").replace(" ", "").rstrip("*")
+                    elem_t = _one_star_less(q.replace("const ", "").replace(" ", ""))
             if elem_t is None:
                 raise Unsupported("memcpy source is not self->keys / self->values based")
             field = "*" + elem_t
